@@ -777,6 +777,7 @@ call_callback (int i, int what, int num_arg)
       callback = lpc_socks[i].close_callback;
       break;
     default:
+      pop_n_elems (num_arg);
       return;
     }
 
@@ -789,6 +790,11 @@ call_callback (int i, int what, int num_arg)
       if (callback.s[0] == APPLY___INIT_SPECIAL_CHAR)
         error ("Illegal function name.\n");
       safe_apply (callback.s, lpc_socks[i].owner_ob, num_arg, ORIGIN_DRIVER);
+    }
+  else
+    {
+      /* no callback of this kind was given: the arguments pushed for it go away with it */
+      pop_n_elems (num_arg);
     }
 }
 
